@@ -171,6 +171,26 @@ func runNLVHistory(c *Ctx, ops []nlvOp) {
 			if !found {
 				model = append(model, lv{tag, want})
 			}
+		case 'E':
+			// comparing is not a change: against the same entries in reverse order, and against a list that differs in one text
+			rev := make(vocab.NaturalLanguageValues, 0, len(n))
+			for k := len(n) - 1; k >= 0; k-- {
+				rev = append(rev, vocab.LangRefValue{Ref: n[k].Ref, Value: append(vocab.Content{}, n[k].Value...)})
+			}
+			other := append(vocab.NaturalLanguageValues{}, rev...)
+			if len(other) > 0 {
+				other[0] = vocab.LangRefValue{Ref: other[0].Ref, Value: vocab.Content(string(other[0].Value) + "!")}
+			}
+			revWant := append(vocab.NaturalLanguageValues{}, rev...)
+			if c.Guard("NaturalLanguageValues.Equals", func() { _, _, _ = n.Equals(rev), rev.Equals(n), n.Equals(other) }) {
+				return
+			}
+			for k := range revWant {
+				if rev[k].Ref != revWant[k].Ref || !bytes.Equal(rev[k].Value, revWant[k].Value) {
+					fail(i, o.Op, "equals-reordered-argument", fmt.Sprintf("after Equals the list compared with is %q, it was %q", rev, revWant))
+					return
+				}
+			}
 		case 'G':
 		}
 		c.Eval(1)
@@ -213,6 +233,18 @@ func toNLV(l []lv) vocab.NaturalLanguageValues {
 	return n
 }
 
+func sameEntries(n vocab.NaturalLanguageValues, l []lv) bool {
+	if len(n) != len(l) {
+		return false
+	}
+	for i := range l {
+		if n[i].Ref != l[i].tag || string(n[i].Value) != l[i].text {
+			return false
+		}
+	}
+	return true
+}
+
 func pairSet(l []lv) string {
 	s := make([]string, len(l))
 	for i, e := range l {
@@ -231,6 +263,7 @@ func init() {
 			}
 		}
 	}
+	alphabet = append(alphabet, nlvOp{'E', 0, 0})
 	// a second alphabet that also hands over empty and nil texts (an entry that is present but has no text)
 	var alphabetE []nlvOp
 	for _, op := range []byte{'S', 'A', 'D', 'X'} {
@@ -279,7 +312,7 @@ func init() {
 	lists := dupFreeLists()
 	Register(&Prop{
 		ID: "C19",
-		Rule: fmt.Sprintf("model: ordered list of (tag,text), Get = first match; exhaustive layer: all %d histories of length <= %d over {Set, Append, Add, Set-with-a-text-obtained-from-Get (shared bytes)} x 3 tags (incl. the nil tag) x 2 texts, and all histories of length <= 3 over the same operations x 3 tags x {2 texts, the empty text, the nil text}, with Get for every tag, Count, First and the entries compared after every step, and the statement's Set clauses (Get(tag)=v, other tags and order unchanged, grows by <= 1) checked on each Set; equality layer: all %d x %d ordered pairs of duplicate-free lists over 3 tags x 3 texts incl. the empty text (length <= 3, every order): a.Equals(b) <=> same set of pairs; random histories to length 30; distinct = history / list pair; non-trivial = history containing a Set on a present tag or a repeated tag, or lists of length >= 2",
+		Rule: fmt.Sprintf("model: ordered list of (tag,text), Get = first match; exhaustive layer: all %d histories of length <= %d over {Set, Append, Add, Set-with-a-text-obtained-from-Get (shared bytes)} x 3 tags (incl. the nil tag) x 2 texts plus a comparison step (Equals against the same entries reversed and against a list differing in one text: neither list may change), and all histories of length <= 3 over the same operations x 3 tags x {2 texts, the empty text, the nil text}, with Get for every tag, Count, First and the entries compared after every step, and the statement's Set clauses (Get(tag)=v, other tags and order unchanged, grows by <= 1) checked on each Set; equality layer: all %d x %d ordered pairs of duplicate-free lists over 3 tags x 3 texts incl. the empty text (length <= 3, every order): a.Equals(b) <=> same set of pairs; random histories to length 30; distinct = history / list pair; non-trivial = history containing a Set on a present tag or a repeated tag, or lists of length >= 2",
 			total, L, len(lists), len(lists)),
 		Layers: func(tier string) []Layer {
 			return []Layer{
@@ -315,6 +348,10 @@ func init() {
 							got := na.Equals(nb)
 							want := ka == pairSet(b)
 							c.Count("equality-comparisons", 1)
+							if !sameEntries(na, a) || !sameEntries(nb, b) {
+								c.Fail(fmt.Sprintf("nlv|Equals|len%d|len%d|arguments-changed", len(a), len(b)), fmt.Sprintf("after Equals the lists are %q and %q, they were built as %v and %v", na, nb, a, b), map[string]any{"a": fmt.Sprintf("%q", na), "b": fmt.Sprintf("%q", nb)})
+								na = toNLV(a)
+							}
 							if got != want {
 								law := "equal-but-different-pairs"
 								if want {
@@ -359,6 +396,9 @@ func init() {
 								c.Fail("nlv|Equals|long|"+kind, fmt.Sprintf("lists of %d entries (%s): Equals = %v, same set of pairs: %v", n, kind, got, want), map[string]any{"a": fmt.Sprintf("%q", pr[0]), "b": fmt.Sprintf("%q", pr[1])})
 							}
 						}
+						if !sameEntries(na, a) || !sameEntries(nb, b) {
+							c.Fail("nlv|Equals|long|arguments-changed", fmt.Sprintf("lists of %d entries (%s): Equals changed the order or content of a list it compared", n, kind), map[string]any{"a": fmt.Sprintf("%q", na), "b": fmt.Sprintf("%q", nb)})
+						}
 					})
 					c.Eval(2)
 				}},
@@ -366,7 +406,7 @@ func init() {
 					n := 5 + c.R.Intn(26)
 					ops := make([]nlvOp, n)
 					for i := range ops {
-						ops[i] = nlvOp{"SSADGXX"[c.R.Intn(7)], c.R.Intn(len(nlvTags)), c.R.Intn(len(nlvTexts))}
+						ops[i] = nlvOp{"SSADGXXE"[c.R.Intn(8)], c.R.Intn(len(nlvTags)), c.R.Intn(len(nlvTexts))}
 					}
 					c.Distinct("h|"+nlvOpsString(ops), true)
 					runNLVHistory(c, ops)
